@@ -209,8 +209,9 @@ PROPS = {
     },
     "C03": {
         "pkg": "internal/config",
-        "files": ["shared/zz_verif_doc_test.go", "config/zz_verif_common_test.go", "config/zz_verif_accepted_test.go", "config/zz_verif_C02_test.go", "config/zz_verif_C01_test.go", "config/zz_verif_C03_test.go"],
+        "files": ["shared/zz_verif_doc_test.go", "config/zz_verif_common_test.go", "config/zz_verif_accepted_test.go", "config/zz_verif_C02_test.go", "config/zz_verif_C01_test.go", "config/zz_verif_C03_test.go", "config/zz_verif_fuzz03_test.go"],
         "run": "TestVerif_C03",
+        "fuzz": [{"target": "FuzzVerif_C03", "seconds": 150}],
         "level": "exploration",
         "quick": {"shards": 8},
         "thorough": {"shards": 16, "timeout_s": 5400},
@@ -590,3 +591,4 @@ PROPS["C02"]["rule"] += " The sweep enumerates every prefix length 0..128 for pr
 PROPS["C03"]["rule"] += " pref64 CIDR strings cover every length 0..128 of two IPv6 networks and every length of an IPv4 network."
 PROPS["C12"]["rule"] += " One received RA in three may list a prefix or route in several options (another router may; our configuration cannot): an inconsistency of any copy must be reported; labels are then compared as sets. Field values also cover 1, limit-1, 65535 and 2^32-1 style extremes and any hop limit."
 PROPS["C17"]["rule"] += " Overlap probes run in two rounds (three requests 0.7 ms apart, two requests 1.4 ms apart) and include the debug API: each overlapping answer must equal the answer of the request that ran alone (API bodies only when no advertised value depends on time); the quiet window covers every recorded Prepare instant and lasts until the slowest overlapping request has finished. Whole-process: two real API requests 3 ms apart."
+PROPS["C03"]["rule"] += " Thorough tier: 150 s of native coverage-guided fuzzing of raw TOML bytes (FuzzVerif_C03) with the same round-trip oracle on whatever config.Parse accepts within the statement's domain."
